@@ -5,7 +5,7 @@ import math
 import numpy as np
 
 FLAVORS = ["plain", "plain", "plain", "uniform_scale", "sensor_scale", "const_sensor", "dup_rows",
-           "corr", "int", "float32", "fortran", "strided", "readonly", "baseline"]
+           "corr", "int", "float32", "fortran", "strided", "readonly", "baseline", "colslice", "rowstep"]
 
 
 def regime_series(rng, T, N, n_reg=2, seg=20, scale=1.0):
@@ -54,6 +54,15 @@ def make_series(d):
         big = np.zeros((T * 2, N * 2))
         big[::2, ::2] = x
         x = big[::2, ::2]
+    elif fl == "colslice":
+        wide = np.zeros((T, N + 2))
+        wide[:, :N] = x
+        wide[:, N:] = 123.0
+        x = wide[:, :N]
+    elif fl == "rowstep":
+        tall = np.full((2 * T, N), -77.0)
+        tall[::2] = x
+        x = tall[::2]
     elif fl == "readonly":
         x = np.array(x)
         x.flags.writeable = False
